@@ -102,7 +102,9 @@ pub fn replay(args: &[String]) {
 }
 
 const ALPHA: &[char] = &['a', 'b', 'A', 'Z', 'é', 'É', '😀', ' ', ' ', '\t', '\u{a0}', '\u{3000}', 'x', '/', ',', '1', '中', '\u{10ffff}', '"', '#', '\n'];
+const NASTY: &[&str] = &["", " ", "  ", "\n", "\r\n", "\t", "\u{feff}", "\u{feff}x", "\u{a0}", "0", "-1", "false", "no", "${x}", "%{x}", "$", "%", "#", "\"", "=", "a=b", "'", ":", "!", " a", "a ", "--x", "-", "..", "/", "//", "aa", "aaa", "abab", "\u{10ffff}"];
 fn rand_text(r: &mut Rng, maxlen: usize, letters_only: bool) -> String {
+    if !letters_only && r.chance(1, 8) { let t: &str = *r.pick(NASTY); return make_writable(t); }
     let n = if r.chance(1, 10) { 0 } else { r.below(maxlen + 1) };
     let t: String = (0..n).map(|_| if letters_only { *r.pick(&['a', 'b', 'A', 'Z', 'é', 'É', 'q', 'M']) } else if r.chance(4, 5) { *r.pick(ALPHA) } else { char::from_u32(0x21 + r.below(0x3000) as u32).unwrap_or('x') }).collect();
     make_writable(&t)
